@@ -48,8 +48,16 @@ Fixpoint le_val (bs : list byte) : Z :=
 
 Definition is_byte (b : Z) : bool := (0 <=? b) && (b <? 256).
 
-Definition take (n : nat) (bs : list byte) : option (list byte * list byte) :=
-  if Nat.leb n (length bs) then Some (firstn n bs, skipn n bs) else None.
+(* the first n bytes and the rest, or None when fewer are left (one pass, no length computed) *)
+Fixpoint take (n : nat) (bs : list byte) : option (list byte * list byte) :=
+  match n with
+  | O => Some ([], bs)
+  | S n' =>
+      match bs with
+      | [] => None
+      | b :: r => match take n' r with Some (h, t) => Some (b :: h, t) | None => None end
+      end
+  end.
 
 (* ---- integers of the schema language ---------------------------------------------------------- *)
 Fixpoint int_width (s : schema) : option nat :=
